@@ -53,17 +53,22 @@ structure St where
   errors : List Nat       -- `frame_errors`, as positions in the set-up table
   loadedAt : Nat
   snap : Nat → Bool       -- `arrived` at the moment of loading (bookkeeping for the statements)
+  versioned : Nat → Bool  -- `_frame_versions` has an entry for the request of kind k
+  vtx : Nat → Nat         -- requests of kind k put on the write queue by the frame-versions handler
 
 inductive Ev
   | sensors               -- first sensor-data message handled
   | answer (k : Nat)      -- response of kind k handled (`device.handle_frame(response)`)
   | wait (d : Nat)        -- the clock advances by d ms without reaching the pending deadline
   | timer                 -- the clock jumps to the pending deadline: every pending `get` times out
+  | versions (ks : List Nat)  -- a frame-versions table naming the requests of the kinds `ks` is handled
+                          --   (regulator data / sensor data; at any time, also before the sensor data)
 deriving Repr, DecidableEq, Inhabited
 
 inductive Out
   | tx (k t : Nat)                     -- request of kind k put on the write queue at t
   | loaded (t : Nat) (errors : List Nat)
+  | vtx (k t : Nat)                    -- request of kind k put on the write queue by the frame-versions handler
 deriving Repr, DecidableEq, Inhabited
 
 /-- the `provides` name of kind k is in `device.data` -/
@@ -85,7 +90,12 @@ def finish (c : Cfg) (s : St) : St × List Out :=
 
 def init : St :=
   { phase := .waiting, now := 0, t0 := 0, arrived := fun _ => false, tx := fun _ => 0, errors := [],
-    loadedAt := 0, snap := fun _ => false }
+    loadedAt := 0, snap := fun _ => false, versioned := fun _ => false, vtx := fun _ => 0 }
+
+/-- kinds the frame-versions handler requests now: named, not yet versioned, and not listed as failed
+(`supports_frame_type`).  It neither looks at nor touches the set-up requests. -/
+def versionRequests (c : Cfg) (s : St) (ks : List Nat) : List Nat :=
+  (kinds c).filter (fun k => ks.contains k && !s.versioned k && !(s.phase == .loaded && s.errors.contains k))
 
 /-- the sensor data has arrived: every request is created and put on the queue once -/
 def start (c : Cfg) (s : St) : St :=
@@ -128,6 +138,10 @@ def step (c : Cfg) (s : St) : Ev → St × List Out
       if i < c.R then (retry c s i, (missing c s).map (fun k => Out.tx k (s.t0 + i * c.T)))
       else finish c (expire c s i)
     | _ => (s, [])
+  | .versions ks =>
+    ({ s with versioned := fun k => s.versioned k || (versionRequests c s ks).contains k,
+              vtx := fun k => s.vtx k + (if (versionRequests c s ks).contains k then 1 else 0) },
+     (versionRequests c s ks).map (fun k => Out.vtx k s.now))
 
 def run (c : Cfg) (s : St) : List Ev → St × List Out
   | [] => (s, [])
